@@ -580,6 +580,10 @@ def c04(run):
     sk = lambda c: {"syms": c.get("syms"), "full": c.get("full", {}).get("src"), "min": c.get("min", {}).get("src")} if c.get("kind") == "vec" else {"src": c.get("src"), "outcome": c["out"]["k"]}
     validate_trace(run, "CelParseTrace", out, sample_key=sk, nontrivial=lambda c: len(c.get("syms", [])) > 1,
                    what="generated tree: cel-rust's parser did not return the tree that the rendered text denotes")
+    # every && / || tree with up to 5 operators (1619 shapes): the fully parenthesised rendering must come back as exactly that tree
+    out = parse_vec_stage(run, "CelParseMC", "CelParseMC_logic", "trees", "parse-vectors", workers=4)
+    validate_trace(run, "CelParseTrace", out, sample_key=sk, nontrivial=lambda c: len(c.get("syms", [])) > 1,
+                   what="generated && / || tree: cel-rust's parser did not return the tree that the rendered text denotes")
     run.exhaustive = True
     path = run.work("c04.ndjson")
     celconf(["drive-parse", "--family", "c04", "--seed", run.seed, "--tier", run.tier, "--out", path])
